@@ -2,6 +2,7 @@ import PprofVerif.Lemmas.FilterName
 import PprofVerif.Lemmas.FilterCorollaries
 import PprofVerif.Lemmas.FilterShowFrom
 import PprofVerif.Lemmas.FilterShowFromOnly
+import PprofVerif.Lemmas.FilterNameOnly
 import PprofVerif.Lemmas.FilterShowFromFrames
 import PprofVerif.Model.TagFilter
 import PprofVerif.Lemmas.TagRange
@@ -172,6 +173,19 @@ theorem filters_preserve_values_labels_order (p : Profile) (hv : p.Valid) (fo ig
   obtain ⟨os, hsub, hfa⟩ := nameSpec_preserves p fo ig hi sh
   refine ⟨os, hsub, ?_⟩
   exact hfa.imp (fun {v s} hvs => ⟨hvs.1.1, hvs.1.2.1, hvs.1.2.2.1, hvs.1.2.2.2, hvs.2⟩)
+
+/-- The removes-only half of `filters_preserve_values_labels_order` WITHOUT the validity hypothesis
+(profiles with duplicate or dangling ids included): for every combination of focus/ignore/hide/show
+a kept sample's location list is a sublist of its list before with values, labels and units
+untouched, and the kept samples' data are, in order, a sublist of the samples' data before. -/
+theorem name_filters_only_remove (p : Profile) (fo ig hi sh : Option Rx) :
+    (∀ s s', sampleStep p fo ig hi sh s = some s' →
+      s'.locationIDs.Sublist s.locationIDs ∧ s'.values = s.values ∧ s'.label = s.label ∧
+      s'.numLabel = s.numLabel ∧ s'.numUnit = s.numUnit) ∧
+    List.Sublist
+      ((filterSamplesByName p fo ig hi sh).profile.samples.map (fun s => (s.values, s.label, s.numLabel, s.numUnit)))
+      (p.samples.map (fun s => (s.values, s.label, s.numLabel, s.numUnit))) :=
+  ⟨sampleStep_only_removes p fo ig hi sh, filterSamplesByName_samples_sublist p fo ig hi sh⟩
 
 /- FULL STATEMENT (false of the code, see `showFrom_spec_fails`):
      theorem showFrom_spec (p) (hv : p.Valid) (R : Rx) :
